@@ -45,24 +45,24 @@ CHECKS = {
              note="Absorb and squeeze phases are not interleaved (documentation leaves it open); the one-shot functions themselves are tied to the reference by C01-C05.", ref="4/C07"),
  "C01": dict(level="exploration", technique="rapidcheck PBT, differential against an independent spec-derived reference model; four entry-point families per case",
              text="Generated (alg, key, nonce, AD, PT, chunking, random-word tape) cases; one-shot, incremental, masked and C++ entry points are each compared with the reference ASCON v1.2 AEAD, which is pinned to frozen NIST KAT vectors. Exploration: the input space is unbounded; boundary-weighted lengths and patterned keys/nonces target what the KATs hold constant.",
-             note="Trusts ref/ascon_ref.hpp + frozen vectors; messages < 2^32 bytes; quick tier uses asm(4,2,4) and c32(3,3,3), thorough 11 configurations.", ref="4/C01"),
+             note="Trusts ref/ascon_ref.hpp + frozen vectors; quick tier: all five host backends with share tuples 4/2/4, 3/3/3, 2/1/2, 4/4/4; thorough: 11 configurations plus messages and associated data of 2^32 + k bytes (harness/huge.cpp, metamorphic oracles: truncation to the k-byte prefix, in-place round trip, rejected bit flips); caller buffers start at varying address alignments.", ref="4/C01"),
  "C02": dict(level="exploration", technique="rapidcheck PBT: round-trip plus adversarial tamper generator (incl. exhaustive single-bit flips and truncations for small cases), wipe oracle on exact-size buffers",
              text="For all 15 family/algorithm pairs: decrypt(encrypt(x)) = x, and every generated tampering (bit flips in ct/tag/AD/nonce/key, multi-bit, truncation, extension, block swap, foreign tag) is rejected with a negative result and a fully zeroed one-shot plaintext buffer; small cases enumerate every single-bit flip and every truncation length.",
              note="Accepts the 2^-128 forgery probability; incremental API has no wipe promise and none is asserted; inputs shorter than the tag: only the negative result is asserted.", ref="4/C02"),
  "C03": dict(level="exploration", technique="rapidcheck PBT, differential against an independent reference sponge (declared-length IV, cXOF name block / hashed long names / customisation separator)",
-             text="Generated (mode, message, squeeze length, declared length, name, customisation) cases compared with the reference; equivalences declared 32 = HASH and declared 0 / >= 2^29 = XOF are checked explicitly.",
+             text="Generated (mode, message, squeeze length, declared length, name, customisation) cases compared with the reference; equivalences declared 32 = HASH and declared 0 / >= 2^29 = XOF are checked explicitly; declared lengths include (k<<32)|small and arbitrary 64-bit values; absorb in generated chunks; the thorough tier hashes 2^32 + k bytes (one call vs four calls vs the k-byte prefix).",
              note="Trusts the reference (pinned to HASH/HASHA/XOF/XOFA/KMAC/KMACA vectors; the cXOFA customisation round count is pinned by the published KMACA vectors).", ref="4/C03"),
  "C04": dict(level="exploration", technique="rapidcheck PBT, differential against reference PRF/Mac/PrfShort/HMAC/KMAC; verify oracle with all 128 single-bit-flipped tags",
-             text="Generated keys (every HMAC key-length class incl. 0, 64, 65, 200), messages, output and declared lengths; MAC verification must return 0 exactly for the reference tag and -1 for every other generated tag.",
+             text="Generated keys (every HMAC key-length class incl. 0, 64, 65, 200), messages, output and declared lengths; MAC verification must return 0 exactly for the reference tag and -1 for every other generated tag; incremental entries absorb in three generated pieces and squeeze in two; PrfShort must refuse absurd lengths (2^32 + small, SIZE_MAX) without touching 16-byte buffers; the thorough tier authenticates 2^32 + k bytes.",
              note="Trusts the reference (pinned to frozen Prf/Mac/PrfShort/HMAC/KMAC vectors).", ref="4/C04"),
  "C05": dict(level="exploration", technique="rapidcheck PBT, differential against RFC 5869 / RFC 8018 written over the reference HMAC and cXOF; generated expand-request lists crossing the 8160-byte limit",
-             text="One-shot and incremental HKDF/HKDFA (limit, error result, zero fill), PBKDF2 and PBKDF2-HMAC (count 0..300, truncated last block), KDF/KDFA one-shot and incremental.",
+             text="One-shot and incremental HKDF/HKDFA (limit, error result, zero fill), PBKDF2 and PBKDF2-HMAC (count 0..300, truncated last block, outputs beyond 255 and, rarely, beyond 65536 blocks), KDF/KDFA one-shot and incremental; one-shot HKDF must refuse requests near SIZE_MAX without writing.",
              note="Trusts the reference HMAC/cXOF (pinned to vectors) and the RFC structure written on top.", ref="4/C05"),
  "C06": dict(level="exploration", technique="rapidcheck PBT: differential against reference SIV / ISAP v2.0 plus model-based command sequences over one pre-computed ISAP key with a raw-bytes invariant after every command",
-             text="SIV and ISAP outputs equal the reference for generated inputs (plus determinism and tag-dependence metamorphic checks); generated histories of encrypt/decrypt/forged/save/load/re-init/C++ set_key(saved) leave the key object's bytes identical to the post-init snapshot and keep producing reference ciphertexts.",
+             text="SIV and ISAP outputs equal the reference for generated inputs (plus determinism and tag-dependence metamorphic checks); generated histories of encrypt/decrypt/forged/save/load/re-init/C++ set_key(saved) leave the key object's bytes identical to the post-init snapshot and keep producing reference ciphertexts; in-place one-shot calls; the thorough tier runs SIV and ISAP on packets and associated data of 2^32 + k bytes.",
              note="Trusts the reference (pinned to frozen SIV and ISAP vectors); SIV keystream pass follows diagram + vectors (permute then XOR).", ref="4/C06"),
  "C08": dict(level="exploration", technique="rapidcheck property-based testing vs independent reference permutation + byte-array model; all 861 (offset,size) pairs enumerated per case; on 5 backends",
-             text="Generated-input search: every host backend's ascon_permute (all 12 starting rounds) is compared with a reference permutation that shares no code with the library (table S-box, pinned to frozen KATs), and every byte operation is compared with a 40-byte array model for all 861 (offset,size) pairs per generated state and for generated operation sequences. Exploration is the right level: the input space (2^320 states) cannot be enumerated, the (offset,size) space is.",
+             text="Generated-input search: every host backend's ascon_permute (all 12 starting rounds) is compared with a reference permutation that shares no code with the library (table S-box, pinned to frozen KATs), and every byte operation is compared with a 40-byte array model for all 861 (offset,size) pairs per generated state, with the caller's input buffer at all eight address alignments, and for generated operation sequences; ascon_init must give the all-zero state. Exploration is the right level: the input space (2^320 states) cannot be enumerated, the (offset,size) space is.",
              note="Trusts ref/ascon_ref.hpp (anchored to frozen published vectors) and the repository's CMake build of the five backends; x86-64 host only.", ref="4/C08"),
 }
 PENDING = {}
